@@ -107,7 +107,7 @@ func (s *Sim) Close() { s.Server.Close() }
 func (s *Sim) Defs() []map[string]interface{} {
 	out := make([]map[string]interface{}, 0, len(s.defs))
 	for _, d := range s.defs {
-		out = append(out, map[string]interface{}{"group": d.Group, "resource": d.Resource, "namespaced": d.Namespaced, "hasStatus": d.HasStatus})
+		out = append(out, map[string]interface{}{"group": d.Group, "resource": d.Resource, "kind": d.Kind, "namespaced": d.Namespaced, "hasStatus": d.HasStatus})
 	}
 	return out
 }
